@@ -237,6 +237,8 @@ def multi_document(faults):
         lines.append("    /end BLOB")
     if "toonew_enum" in f:
         lines += meas("m_toonew_enum", dt="FLOAT16_IEEE")
+        # ... and with the enum item on a later line than the tag of its element
+        lines += ["    /begin MEASUREMENT m_toonew_enum_later", '      ""', "      FLOAT16_IEEE NO_COMPU_METHOD", "      1 1.0 0 255", "    /end MEASUREMENT"]
     if "wrongend" in f:
         lines += meas("m_wrongend", end="WRONG_TAG")
     if "deprecated" in f and not toonew:
@@ -263,6 +265,9 @@ PAYLOADS = {
     "kw_comment": [["UNKNOWN_X", "1", "/* a block comment */", "2"]],
     "blk_unbalanced_inner_kw": [["/begin", "UNKNOWN_X", "KEYWORD_INSIDE", "5", "UNKNOWN_X_NOT_END", "/end", "UNKNOWN_X"]],
     # an unknown keyword whose arguments contain nested blocks (the known element behind it must survive)
+    # (the text UNKNOWN_X is part of these tags: the checks look for it in the warning)
+    "blk_digit_tag": [["/begin", "3D_UNKNOWN_X", "1", "/end", "3D_UNKNOWN_X"]],
+    "blk_long_tag": [["/begin", "UNKNOWN_X" + "_L" * 600, "1", "/end", "UNKNOWN_X" + "_L" * 600]],
     "kw_with_block": [["UNKNOWN_X", "1", "/begin", "INNER_Y", "x", "/end", "INNER_Y"]],
     "kw_with_two_blocks": [["UNKNOWN_X", "/begin", "INNER_Y", "/end", "INNER_Y", "2", "/begin", "INNER_Z", "/begin", "INNER_W", "/end", "INNER_W", "/end", "INNER_Z"]],
 }
